@@ -463,10 +463,15 @@ def _parseNormalTextgrid(data: str) -> Dict:
                 raise
         # A tier's name may span several lines (like a label); it is the
         # only quoted text left in the header after the class row
-        tierName = reSearch(
+        nameMatch = reSearch(
             r"name ?= ?\"(.*)\"\s*$", header, flags=re.MULTILINE | re.DOTALL
-        ).groups()[0]
+        )
+        tierName = nameMatch.groups()[0]
         tierName = re.sub(r'""', '"', tierName)
+
+        # The rows that follow the name row are searched behind the name, so
+        # that no line of a multi-line name can be taken for one of them
+        header = header[nameMatch.end(1) :]
 
         # Times may be negative; "-0" has been reported as a potential start time
         tierStartTimeStr = reSearch(
